@@ -267,6 +267,18 @@ class OptimizationHistory:
                     c_key = Database.get_gradient_name(c_name)
                     c_opt_grad[constraint.name] = output_values.get(c_key)
 
+        if not x_opt.size:
+            # No feasible point has a usable objective value (e.g. the run stopped
+            # before the objective was evaluated): report the first feasible point.
+            x_opt = feas_x[0]
+            output_values = feas_f[0]
+            f_opt = output_values.get(obj_name)
+            for constraint in constraints:
+                c_name = constraint.name
+                c_opt[c_name] = output_values.get(c_name)
+                c_key = Database.get_gradient_name(c_name)
+                c_opt_grad[c_name] = output_values.get(c_key)
+
         if isinstance(f_opt, ndarray) and len(f_opt) == 1:
             f_opt = f_opt[0]
 
